@@ -118,6 +118,7 @@ class Interp:
         self.next_aid = 1
         self.live = set()
         self.sites = {}
+        self.lambda_names = {}
         _natives.install(self)
 
     # ------------------------------------------------------------------ utilities
@@ -236,9 +237,31 @@ class Interp:
         return self.to_str(v)
 
     # ------------------------------------------------------------------ running
+    def name_lambdas(self, node, let_name=None):
+        """The parser names a lambda after the `let` whose initialiser it textually sits in."""
+        if isinstance(node, tuple):
+            if node and node[0] == "let" and len(node) == 3:
+                self.name_lambdas(node[2], node[1])
+                return
+            if node and node[0] == "lambda":
+                if let_name is not None:
+                    self.lambda_names[id(node)] = let_name
+                self.name_lambdas(node[2], let_name)
+                return
+            for x in node:
+                self.name_lambdas(x, let_name)
+        elif isinstance(node, list):
+            for x in node:
+                self.name_lambdas(x, let_name)
+        elif isinstance(node, dict):
+            for x in node.values():
+                self.name_lambdas(x, let_name)
+
     def run(self, module_ast):
         """Run the main module. Returns the Result."""
         res = self.res
+        self.name_lambdas(module_ast)
+        self.name_lambdas(self.files)
         try:
             self.run_module(self.main, module_ast, "script")
         except LyError as e:
@@ -597,7 +620,8 @@ class Interp:
                     parts.append(self.str_of(v))
             return "".join(parts)
         if k == "lambda":
-            return LClosure("lambda", e[1], e[2], env, "lambda", None, self.module_name, home=self.frames[-1].aid)
+            return LClosure(self.lambda_names.get(id(e), "lambda"), e[1], e[2], env, "lambda", None, self.module_name,
+                            home=self.frames[-1].aid)
         if k == "self":
             return self.frames_self(env)
         if k == "at":
